@@ -111,6 +111,16 @@ func (ex *Exec) call(st *State, in ssa.Instruction, c *ssa.CallCommon) (Value, b
 			return v, false
 		}
 	}
+	if name == "maps.Keys" {
+		if v, ok := ex.mapsKeysCall(st, callee, c); ok {
+			return v, false
+		}
+	}
+	if name == "slices.Sorted" {
+		if v, ok := ex.slicesSortedCall(st, in, c); ok {
+			return v, false
+		}
+	}
 	if name == "sort.Slice" && len(c.Args) == 2 {
 		if v, ok := ex.sortSlice(st, in, c); ok {
 			return v, false
